@@ -250,8 +250,11 @@ func (rr *rulesRunner) run(f *ast.File) error {
 		panic("internal error: node path is not empty")
 	}
 
-	rr.filename = rr.ctx.Fset.Position(f.Pos()).Filename
-	rr.filterParams.filename = rr.filename
+	// The source text is read from the file that was parsed; a //line directive
+	// in front of the package clause attributes its positions to another file
+	// (the grammar or template it was generated from), which may exist as well.
+	rr.filename = rr.ctx.Fset.PositionFor(f.Pos(), false).Filename
+	rr.filterParams.filename = rr.ctx.Fset.Position(f.Pos()).Filename
 	rr.collectImports(f)
 
 	if rr.rules.universal.categorizedNum != 0 {
